@@ -723,26 +723,37 @@ def gen_leaf(P, shape, ctx):
     return Node("leaf", opd=o)
 
 
-def gen_program(pid, rng, group):
+def gen_program(pid, rng, group, force=None):
+    """force: dict pinning the shape / statement form / destination / right-hand side of the program
+    (used for the sub-view quota, see subview_force); None = everything random"""
+    force = force or {}
     P = Prog(pid, rng, group)
     P.T = choose(rng, [("double", 6), ("float", 2), ("long double", 2)])
-    shape = rng.choice(SHAPES[group])
+    shape = force["shape"] if force else rng.choice(SHAPES[group])
     f = shape[0]
     ne = nelem(shape)
     # statement form
-    if f == "matrix":
-        form = choose(rng, [("assign", 6), ("scale", 3), ("elem", 2)])
+    if force:
+        form = force["form"]
+        D = force["mkdst"](P)
+        P.opds.append(D)
+        assert D.shape == tuple(shape), (D.shape, shape)
     else:
-        form = choose(rng, [("assign", 12), ("scale", 2), ("elem", 2), ("lazy", 1)])
-    D = new_leaf(P, shape, [], want_writable=True)
+        if f == "matrix":
+            form = choose(rng, [("assign", 6), ("scale", 3), ("elem", 2)])
+        else:
+            form = choose(rng, [("assign", 12), ("scale", 2), ("elem", 2), ("lazy", 1)])
+        D = new_leaf(P, shape, [], want_writable=True)
     ctx = {"dst": D, "leaves": [], "alias": "none", "allow_eval": f in FIXED}
     info = {"pid": pid, "T": P.T, "shape": list(shape), "form": form, "dst": D.kind}
     body = []
     mode = 0
     if form in ("assign", "lazy"):
-        op = choose(rng, [("=", 5), ("+=", 3), ("-=", 3)])
-        ctx["alias"] = choose(rng, [("none", 55), ("dst", 30), ("twin", 10), ("overlap", 5)])
-        if f == "matrix":
+        op = force.get("op") or choose(rng, [("=", 5), ("+=", 3), ("-=", 3)])
+        ctx["alias"] = force.get("alias") or choose(rng, [("none", 55), ("dst", 30), ("twin", 10), ("overlap", 5)])
+        if "E" in force:
+            E = force["E"](P, D, ctx)
+        elif f == "matrix":
             # no binary operators on matrix<T>: right-hand side is a single operand
             E = gen_leaf(P, shape, ctx)
         else:
@@ -767,7 +778,7 @@ def gen_program(pid, rng, group):
         ref = (op, E, ncols)
         info["op"] = op
     elif form == "scale":
-        op = rng.choice(["*=", "/="])
+        op = force.get("op") or rng.choice(["*=", "/="])
         sc = P.scalar()
         label = op
         if sc[0].lstrip("-").isdigit():
@@ -785,7 +796,7 @@ def gen_program(pid, rng, group):
             mode = 1
         info["op"] = label
     else:  # element accesses
-        op = rng.choice(["[]=", "[]+=", "()=", "read"])
+        op = force.get("elem_op") or rng.choice(["[]=", "[]+=", "()=", "read"])
         perm = list(range(ne))
         rng.shuffle(perm)
         two_d = f in ("tmatrix", "matrix")
@@ -841,7 +852,11 @@ def gen_program(pid, rng, group):
         if extra:
             st.append("with=" + "+".join(extra))
         st.append("alias=" + alias)
+    if force.get("tag"):
+        st.append(force["tag"])
     stratum = ";".join(st) if st else "-"
+    if force.get("info"):
+        info["subview"] = force["info"]
     info.update({"api": api, "stratum": stratum, "alias": alias, "mode": mode, "rhs_kinds": kinds,
                  "statement": stmt_text, "n_leaves": len(rl), "nelem": ne})
     L = []
@@ -920,6 +935,232 @@ def gen_program(pid, rng, group):
     return "\n".join(L), info
 
 
+
+# ----------------------------------------------------------------------------- sub-view quota
+# A fixed share of the tvector/tmatrix translation units is reserved for the partial views of
+# tmatrix.hxx -- row_view<I,J,K>, column_view<I,J,K>, submatrix_view<I,J,R,C>, the full row_view<I> /
+# column_view<I>, each in its const and non-const overload -- and the tvector slices, always on
+# NON-SQUARE matrices (a stride N taken for M is invisible on a square one), with K = 1, an interior
+# K and the maximal K, used as: element reads, destination of = += *=, destination aliased with the
+# right-hand side, destination next to another sub-view of the same matrix, const view read by a
+# plain object.  The table below is cycled so that every (view, use) pair appears in every run.
+
+SUBVIEW_TABLE = [(w, u) for u in ("read", "=", "+=", "*=", "alias-dst", "alias-store", "const-read") for w in ("col3", "row3", "sub")] + \
+                [("col", "="), ("row", "+="), ("col", "const-read"), ("row", "alias-store"), ("slice", "="), ("slice", "const-read")]
+KMODES = ["mid", "max", 1]
+
+
+def mk_tm_subview(P, which, K, st, const=False):
+    """sub-view of the tmatrix store st.  which: row (K == C), col (K == R), row3, col3 (K free),
+    sub (K = (r, c)).  Cells from the documentation of tmatrix.hxx: row-major storage i*C + j;
+    row_view<I,J,K>: row I, columns J..J+K-1;  column_view<I,J,K>: column I, rows J..J+K-1;
+    submatrix_view<I,J,R,C>: rows I..I+R-1, columns J..J+C-1."""
+    rng = P.rng
+    R, C = st.meta["shape"][1], st.meta["shape"][2]
+    o = st.meta["obj"]
+    holder = {}
+
+    def g():
+        if which == "row":
+            i = rng.randrange(R)
+            holder["x"] = ("row_view<I>", "row_view<%d>()" % i)
+            return [i * C + k for k in range(C)]
+        if which == "col":
+            i = rng.randrange(C)
+            holder["x"] = ("column_view<I>", "column_view<%d>()" % i)
+            return [k * C + i for k in range(R)]
+        if which == "row3":
+            i, j = rng.randrange(R), rng.randint(0, C - K)
+            holder["x"] = ("row_view<I,J,K>", "row_view<%d, %d, %d>()" % (i, j, K))
+            return [i * C + j + k for k in range(K)]
+        if which == "col3":
+            i, j = rng.randrange(C), rng.randint(0, R - K)
+            holder["x"] = ("column_view<I,J,K>", "column_view<%d, %d, %d>()" % (i, j, K))
+            return [(j + k) * C + i for k in range(K)]
+        r, cc = K
+        i, j = rng.randint(0, R - r), rng.randint(0, C - cc)
+        holder["x"] = ("submatrix_view", "submatrix_view<%d, %d, %d, %d>()" % (i, j, r, cc))
+        return [(i + a) * C + j + b for a in range(r) for b in range(cc)]
+    c = P.place(st, g, tries=60)
+    if c is None:
+        return None
+    kind, call = holder["x"]
+    shape = ("tmatrix", K[0], K[1]) if which == "sub" else ("tvector", len(c))
+    v = P.name("v")
+    if const:
+        k = P.name("k")
+        setup = ["const auto& %s = %s;" % (k, o), "const auto %s = %s.%s;" % (v, k, call)]
+        return Opd(v, "const " + kind, st, c, shape, setup, writable=False)
+    return Opd(v, kind, st, c, shape, ["auto %s = %s.%s;" % (v, o, call)])
+
+
+def mk_slice(P, st, off, n, const=False):
+    """tvector slices: free functions slice<I>(v), slice<I,J>(v) (elements I..J-1) and the member v.slice<I>()"""
+    rng = P.rng
+    N, o = st.size, st.meta["obj"]
+    c = P.place(st, lambda: list(range(off, off + n)), tries=1)
+    if c is None:
+        return None
+    v = P.name("v")
+    src = o
+    setup = []
+    if const:
+        src = P.name("k")
+        setup.append("const auto& %s = %s;" % (src, o))
+    if off + n == N:
+        if rng.random() < 0.5:
+            kind, ex = "slice<I>", "slice<%d>(%s)" % (off, src)
+        else:
+            kind, ex = "tvector::slice<I>()", "%s.slice<%d>()" % (src, off)
+    else:
+        kind, ex = "slice<I,J>", "slice<%d, %d>(%s)" % (off, off + n, src)
+    setup.append("%sauto %s = %s;" % ("const " if const else "", v, ex))
+    return Opd(v, ("const " if const else "") + kind, st, c, ("tvector", n), setup, writable=not const)
+
+
+def subview_force(spec_index):
+    """force dict (see gen_program) of the spec_index-th sub-view program"""
+    which, use = SUBVIEW_TABLE[spec_index % len(SUBVIEW_TABLE)]
+    # K mode: for a given use the three partial views get the three modes, and every view meets every
+    # mode within one pass of the table (the pass number rotates them from one pass to the next)
+    t, passno = spec_index % len(SUBVIEW_TABLE), spec_index // len(SUBVIEW_TABLE)
+    kmode = KMODES[(t // 3 + t % 3 + passno) % 3]
+    box = {}
+
+    def dims(P):
+        rng = P.rng
+        while True:
+            R, C = rng.randint(3, 5), rng.randint(3, 5)
+            if R != C:
+                return R, C
+
+    def pickK(P, R, C):
+        rng = P.rng
+        if which == "row":
+            return C
+        if which == "col":
+            return R
+        if which in ("row3", "col3"):
+            full = C if which == "row3" else R
+            return 1 if kmode == 1 else full if kmode == "max" else rng.randint(2, full - 1)
+        if kmode == 1:
+            return (1, 1)
+        if kmode == "max":
+            return (R, C)
+        while True:
+            r, cc = rng.randint(1, R), rng.randint(1, C)
+            if (r, cc) not in ((1, 1), (R, C)) and r * cc >= 2:
+                return (r, cc)
+
+    def view(P, const=False):
+        """the sub-view under test, on a fresh non-square matrix (or a tvector for slices)"""
+        rng = P.rng
+        if which == "slice":
+            N = rng.randint(3, 7)
+            st = P.obj_store(("tvector", N))
+            n = 1 if kmode == 1 else N if kmode == "max" else rng.randint(2, N - 1)
+            off = rng.choice([0, N - n]) if rng.random() < 0.6 else rng.randint(0, N - n)
+            box.update({"on": "tvector<%d>" % N, "K": n})
+            return mk_slice(P, st, off, n, const)
+        R, C = dims(P)
+        st = P.obj_store(("tmatrix", R, C))
+        K = pickK(P, R, C)
+        box.update({"on": "tmatrix<%d,%d>" % (R, C), "K": K, "store": st})
+        return mk_tm_subview(P, which, K, st, const)
+
+    def other_view(P, D):
+        """another sub-view of the same matrix, same shape, disjoint cells (None if there is no room)"""
+        st = D.store
+        if which == "slice":
+            return None
+        cands = ["sub"] if D.shape[0] == "tmatrix" else ["row3", "col3", "row3", "col3", "row", "col"]
+        P.rng.shuffle(cands)
+        R, C = st.meta["shape"][1], st.meta["shape"][2]
+        for w in cands:
+            n = len(D.cells)
+            if w == "row" and n != C or w == "col" and n != R or w == "row3" and n > C or w == "col3" and n > R:
+                continue
+            K = (D.shape[1], D.shape[2]) if w == "sub" else n
+            o = mk_tm_subview(P, w, K, st, const=P.rng.random() < 0.3)
+            if o is not None:
+                P.opds.append(o)
+                return o
+        return None
+
+    f = {"tag": "subview:nonsquare" if which != "slice" else "subview:slice", "info": box}
+    box.update({"which": which, "use": use, "kmode": str(kmode)})
+
+    def build(P):
+        const = use == "const-read"
+        V = None
+        for _ in range(20):
+            V = view(P, const)
+            if V is not None:
+                break
+        return V
+    f["build"] = build
+    f["use"] = use
+    f["other_view"] = other_view
+    return f
+
+
+def gen_subview_program(pid, rng, group, spec_index):
+    """one program of the sub-view quota: builds the view first (its shape fixes the program's), then
+    delegates to gen_program with everything pinned"""
+    sf = subview_force(spec_index)
+    use = sf["use"]
+    holder = {}
+
+    def mkdst(P):
+        V = sf["build"](P)
+        holder["V"] = V
+        if use == "const-read":
+            D = mk_plain(P, V.shape)
+            P.opds.append(V)       # the const view is an operand, the destination a plain object
+            holder["D"] = D
+            return D
+        return V
+
+    # gen_program needs the shape before it builds the destination: pass 1 builds the view on a scratch
+    # Prog to learn its shape, the random stream is rewound, pass 2 is the real one (same stream -> same view)
+    const_op = rng.choice(["=", "+=", "-="])   # drawn before the stream position is recorded
+    state = rng.getstate()
+    P0 = Prog(pid, rng, group)
+    P0.T = choose(rng, [("double", 6), ("float", 2), ("long double", 2)])
+    V0 = subview_force(spec_index)["build"](P0)
+    shape = V0.shape
+    rng.setstate(state)
+
+    force = {"shape": shape, "mkdst": mkdst, "tag": sf["tag"], "info": sf["info"]}
+    if use == "read":
+        force.update({"form": "elem", "elem_op": "read"})
+    elif use in ("=", "+="):
+        force.update({"form": "assign", "op": use, "alias": "none"})
+    elif use == "*=":
+        force.update({"form": "scale", "op": "*="})
+    elif use == "alias-dst":
+        force.update({"form": "assign", "alias": "dst"})
+    elif use == "alias-store":
+        def E(P, D, ctx):
+            o = sf["other_view"](P, D)
+            if o is None:          # the view covers the whole matrix: fall back to the destination itself
+                ctx["alias"] = "dst"
+                return gen_expr(P, D.shape, 2, ctx)
+            ctx["leaves"].append(o)
+            rest = gen_expr(P, D.shape, 1, ctx)
+            return Node(P.rng.choice("+-"), [Node("smul", [Node("leaf", opd=o)], sc=P.scalar()), rest])
+        force.update({"form": "assign", "alias": "none", "E": E})
+    else:  # const-read
+        def E(P, D, ctx):
+            V = holder["V"]
+            ctx["leaves"].append(V)
+            if P.rng.random() < 0.5:
+                return Node("leaf", opd=V)
+            return Node("+", [Node("leaf", opd=V), Node("muls", [Node("leaf", opd=V)], sc=P.scalar())])
+        force.update({"form": "assign", "alias": "none", "E": E, "op": const_op})
+    return gen_program(pid, rng, group, force)
+
+
 def tu_source(group, progs):
     L = ["// generated by lib/etgen.py — do not edit", "#define VFH_MAIN", "#include \"math/c17_support.hxx\""]
     for h in INCLUDES[group]:
@@ -941,21 +1182,26 @@ def tu_source(group, progs):
 
 
 def plan(tier):
-    """(group, number of programs) per translation unit"""
+    """(group, number of programs, of which sub-view quota) per translation unit"""
     if tier == "thorough":
-        return [("A", 25)] * 12 + [("B", 25)] * 9 + [("C", 25)] * 3      # 600 programs
-    return [("A", 16)] * 4 + [("B", 16)] * 3 + [("C", 16)] * 1            # 128 programs
+        return [("A", 25, 9)] * 12 + [("B", 25, 0)] * 9 + [("C", 25, 0)] * 3      # 600 programs, 108 sub-view
+    return [("A", 16, 7)] * 4 + [("B", 16, 0)] * 3 + [("C", 16, 0)] * 1            # 128 programs, 28 sub-view
 
 
 def generate(seed, tier):
     """-> list of dict(name, group, source, programs=[info...])"""
     out = []
     pid = 0
-    for k, (group, n) in enumerate(plan(tier)):
+    spec = int(seed) * 7          # the (view, use, K) table is cycled from a seed-dependent start
+    for k, (group, n, nsub) in enumerate(plan(tier)):
         rng = random.Random("c17/%s/%s/%d" % (seed, tier, k))
         progs = []
-        for _ in range(n):
-            progs.append(gen_program(pid, rng, group))
+        for j in range(n):
+            if j >= n - nsub:
+                progs.append(gen_subview_program(pid, rng, group, spec))
+                spec += 1
+            else:
+                progs.append(gen_program(pid, rng, group))
             pid += 1
         out.append({"name": "c17_s%s_%s_tu%02d" % (seed, tier[0], k), "group": group,
                     "source": tu_source(group, progs), "programs": [i for _, i in progs]})
